@@ -166,6 +166,10 @@ func IteF(c bool, a, b float64) float64 {
 	return b
 }
 
+// Branch makes the symbolic executor fork on (or look up) the condition instead of folding it
+// into an if-then-else term; natively it is the identity.
+func Branch(c bool) bool { return c }
+
 func Tier() string   { return load().Tier }
 func Thorough() bool { return load().Tier == "thorough" }
 func Pick(quick, thorough int) int {
